@@ -12,6 +12,7 @@ VIOLATION_CLASS = {
     6: ("extensions", "SSH extensions are exactly the five standard ones plus every configured template with the user name substituted "
                       "(Proofs/CertgenSpec.v spec_ext); when a configured template cannot be expanded for the user nothing may be issued (c02_failed_expansion_refused)"),
     7: ("no-error", "a response without certificate must be an error"),
+    8: ("extra-names", "the authenticated user's name is the only identity in the certificate (c02_no_other_names): no further principal, critical option, subject attribute or subject-alternative-name entry"),
 }
 
 def model_oracle(ctx, res):
@@ -45,7 +46,7 @@ def run(ctx):
     ctx.eval_cases = eval_cases
     return standard(ctx,
         props=[("Props.C02", ["c02_binding", "c02_signed_by_loaded_signer", "c02_published_for_every_initial_list", "c02_other_user_refused", "c02_extensions",
-                              "c02_failed_expansion_refused", "c02_names_injective", "c02_user_is_normalised",
+                              "c02_failed_expansion_refused", "c02_names_injective", "c02_no_other_names", "c02_user_is_normalised",
                               "c02_normalise_idempotent", "c02_old_krb_refuted"])],
         harness=("TestVerif_C02", ["kmd/common.go", "kmd/creds.go", "kmd/consts.go", "kmd/c01.go", "kmd/c02.go"]),
         cases=("CasesC02.v", [("c02_mismatches", "every decoded certificate (names, key id, key, type, CA flag, usages, extension map, verifying CA, organisations, groups, service methods, PKINIT name) and every refusal = model certgen on the same request"),
